@@ -11,7 +11,7 @@ use std::path::Path;
 
 pub const LEVEL: &str = "fault_enumeration";
 pub const EXHAUSTIVE: bool = true;
-pub const RULE: &str = "fault states x follow-up history. (a) crash points: learning histories are run first through the API and every distinct content the engine wrote to phonetic-candidate-selection.json is collected; EVERY byte prefix 0..len of every collected store (and of generator-made user autocorrect.json documents) is a fault state (exhaustive over the collected stores); (b) malformed corpus: empty, whitespace, null, [], [1,2], wrong value types, nesting depth 200, invalid UTF-8, BOM, NUL bytes, duplicate keys, 1 MB of '[', plus proptest byte mutations (flip / delete / insert / truncate) of valid documents; (c) right shape, odd content: empty-string keys and values, punctuation-only values, values ending in khanda-ta / anusvara, non-Bengali values; (d) directories: user dir missing, XDG base missing, user dir is a regular file, store path is a directory, auto-correct path is a directory. Follow-up: construct a context, type words built on the stored keys (bare, + suffix key, emoji names, ':er', 'abe'), commit the last (non-preselected) candidate each time, update-engine, type again, restart; 1 in 16 states with the bundled data directory, the rest without (documented configuration). Oracle: no panic anywhere incl. construction; content that does not parse as an object of strings => every rendering equals the run with the file absent; after a failed save the following events work; after the directory is repaired the next learning commit leaves a loadable file. Non-trivial: the fault state makes the file unreadable or the save fail; distinct by (file, content hash / directory fault). (e) fault TRANSITIONS under a live context: generated sequences of 2..7 steps over {healthy document written, damaged bytes written, file removed, removed file put back untouched (same content and modification time), user directory renamed away, renamed back}; after each step followed by update-engine (idle) six probe words are typed in the live context and in a context created at that moment over the same directory state, every rendering compared (no learning commits in this part). After update-engine the follow-up commits the FIRST candidate of each word whose last candidate was learned before (the user's own entry, whatever its value).";
+pub const RULE: &str = "fault states x follow-up history. (a) crash points: learning histories are run first through the API and every distinct content the engine wrote to phonetic-candidate-selection.json is collected; EVERY byte prefix 0..len of every collected store (and of generator-made user autocorrect.json documents) is a fault state (exhaustive over the collected stores); (b) malformed corpus: empty, whitespace, null, [], [1,2], wrong value types, nesting depth 200, invalid UTF-8, BOM, NUL bytes, duplicate keys, 1 MB of '[', plus proptest byte mutations (flip / delete / insert / truncate) of valid documents; (c) right shape, odd content: empty-string keys and values, punctuation-only values, values ending in khanda-ta / anusvara, non-Bengali values; (d) directories: user dir missing, XDG base missing, user dir is a regular file, store path is a directory, auto-correct path is a directory. Follow-up: construct a context, type words built on the stored keys (bare, + suffix key, emoji names, ':er', 'abe'), commit the last (non-preselected) candidate each time, update-engine, type again, restart; 1 in 16 states with the bundled data directory, the rest without (documented configuration). Oracle: no panic anywhere incl. construction; content that does not parse as an object of strings => every rendering equals the run with the file absent; after a failed save the following events work; after the directory is repaired the next learning commit leaves a loadable file. Non-trivial: the fault state makes the file unreadable or the save fail; distinct by (file, content hash / directory fault). (e) fault TRANSITIONS under a live context: generated sequences of 2..7 steps over {healthy document written, damaged bytes written, file removed, removed file put back untouched (same content and modification time), user directory renamed away, renamed back}; after each step followed by update-engine (idle) six probe words are typed in the live context and in a context created at that moment over the same directory state, every rendering compared (no learning commits in this part). After update-engine the follow-up commits the FIRST candidate of each word whose last candidate was learned before (the user's own entry, whatever its value) and then the last one again.";
 pub const ASSUMPTIONS: &[&str] = &[
     "an interrupted std::fs::write leaves a byte prefix of the new content (incl. the empty file)",
     "the process runs as root: 'not writable' = missing directory / regular file in place of the directory / directory in place of the file",
@@ -92,6 +92,17 @@ fn follow_up(opts: Opts, base: &Path, words: &[String]) -> Result<(Vec<Rendered>
             if n > 0 {
                 ctx.commit(0).map_err(|p| panic_at(format!("committing the first candidate of {w:?} after its last one was learned"), p))?;
                 committed = true;
+                // ... and learns the last one again, so that the restart below still has a choice other than the first
+                // to show (a store that did not reach the disk is told from one that did)
+                if let Some(r2) = ctx.type_frontend(w).map_err(|p| panic_at(format!("typing {w:?} once more"), p))? {
+                    let n2 = r2.choices();
+                    out.push(r2);
+                    if n2 > 0 {
+                        ctx.commit(n2 - 1).map_err(|p| panic_at(format!("committing the last candidate of {w:?} again"), p))?;
+                    } else {
+                        ctx.finish().map_err(|p| panic_at("finish".into(), p))?;
+                    }
+                }
             }
         }
         if !committed {
